@@ -14,6 +14,13 @@ def two_histories(rng, flen):
     cfgs = [G.rand_cfg(rng), G.rand_cfg(rng)]
     if cfgs[0]["mac"] == cfgs[1]["mac"]:
         cfgs[1]["mac"] = G.rand_mac(rng)
+    if rng.random() < 0.5:
+        cfgs[1]["mtu"] = cfgs[0]["mtu"]            # same-size buffers are recycled between the interfaces
+    for c in cfgs:
+        if rng.random() < 0.3:                     # an interface without IPv4/IPv6/speed information etc.
+            for bit in range(2, 12):
+                if rng.random() < 0.35:
+                    c["fail"] |= 1 << bit
     hs = []
     shared = G.Net(rng, cfgs[0]["mac"])
     same_lan = rng.random() < 0.6
@@ -222,8 +229,11 @@ def run(ctx):
                 "interleavings with >= 6 port events plus rounds in which the two first-frame calls overlapped in time")
     rep.assumptions = ["TSan's happens-before verdict covers the synchronisation it understands and the code the threads executed",
                        "the port is lock-free with thread-local monitor state, so the monitor is not the race"]
-    binary = H.build(ctx.work, "asan")
+    binary, plain = H.build_many(ctx.work, [dict(flavour="asan"), dict(flavour="plain")])
     scns = make_sequential(ctx, ctx.n(608, 20000))
     run_monitored(ctx, binary, scns, seq_monitor, tag="seq", nshards=16)
-    rep.need("interleavings_checked", rep.counters.get("interleavings_checked", 0), ctx.n(1700, 58000))
+    # the same pairs on the plain build with fresh allocations left as the allocator hands them out: bytes that one
+    # interface's response left in a recycled block must not show up in the other interface's frames
+    run_monitored(ctx, plain, scns, seq_monitor, tag="seq-plain", nshards=16, env_extra={"VH_FILL": "-1"})
+    rep.need("interleavings_checked", rep.counters.get("interleavings_checked", 0), ctx.n(3400, 116000))
     run_threads(ctx, ctx.n(8, 64), ctx.n(300, 5000))
